@@ -1,4 +1,5 @@
 import Pixman.Model.Fetch
+import Pixman.Model.FetchFast
 /-! Line-protocol driver for the `sample` domain (C08).  One request per line:
 
     `S <fmt 0..2> <filter 0..3> <repeat 0..3> <sw> <sh> <m00 … m22> <src_x> <src_y> <dw> <dh> <dx> <dy> <w> <h>
@@ -9,7 +10,7 @@ import Pixman.Model.Fetch
     `(src_x, src_y)` onto the rectangle `(dx, dy, w, h)` of a `dw × dh` a8r8g8b8 destination that was
     filled with 0xcdcdcdcd.  Reply: the `dw·dh` destination words in hex. -/
 namespace Driver.Sample
-open Pixman.Matrix Pixman.Sample Pixman.Model.Fetch
+open Pixman.Matrix Pixman.Sample Pixman.Model.Fetch Pixman.Model.FetchFast
 
 abbrev P := StateT (List String) Option
 
@@ -47,7 +48,58 @@ def repeatOf : Nat → RepeatMode
 
 def prefill : Nat := 0xcdcdcdcd
 
-def request : P String := do
+/-- every nearest sample index of the rectangle lies inside the image (the semantic content of
+    FAST_PATH_SAMPLES_COVER_CLIP_NEAREST); `off` = 1 for NEAREST, 32768 for BILINEAR (then also the
+    right/bottom neighbour must be inside) -/
+def coversAll (b : Bits) (p : Vec) (ux uy : Int) (w h : Nat) (off extra : Int) : Bool :=
+  (List.range w).all (fun (i : Nat) => let x := fixedToInt (p.x - off + i * ux); decide (0 ≤ x ∧ x + extra < b.width)) &&
+  (List.range h).all (fun (j : Nat) => let y := fixedToInt (p.y - off + j * uy); decide (0 ≤ y ∧ y + extra < b.height))
+
+/-- the same request evaluated through the models of the specialised paths (Model/FetchFast.lean) wherever
+    the guard of one of them holds (the guards of the theorems in Props/C08Fast.lean); elsewhere, and for the
+    parts no specialised path covers, the reference model.  Returns the rows and a tag naming the path. -/
+def compositeFast (fmt : Nat) (b : Bits) (m : Transform) (srcX srcY : Int) (width height : Nat) :
+    Option (List (List Nat)) × String :=
+  let ref := compositeSrc b m srcX srcY width height
+  match ref, setTransform m with
+  | none, _ => (none, "dropped")
+  | some _, none => (ref, "identity")
+  | some _, some t =>
+    if width = 0 ∨ height = 0 ∨ isSolid b then (ref, "trivial") else
+    if !isAffine (some t) then (ref, "projective") else
+    match transformPoint3d t (pixelCentre srcX srcY) with
+    | some (true, p) =>
+      let smallStep := decide (-1073741824 < t.m00 ∧ t.m00 < 1073741824 ∧ -1073741824 < t.m11 ∧ t.m11 < 1073741824)
+      let scale := t.m01 = 0 ∧ t.m10 = 0
+      if b.filter = .nearest ∧ scale ∧ smallStep ∧ coversAll b p t.m00 t.m11 width height 1 0 then
+        (fastNearest .cover b t srcX srcY width height, "scaled-nearest-cover")
+      else if b.filter = .nearest ∧ scale ∧ smallStep ∧ 0 < t.m00 ∧ b.rep = .none then
+        (fastNearest .none b t srcX srcY width height, "scaled-nearest-none")
+      else if b.filter = .nearest ∧ scale ∧ smallStep ∧ 0 < t.m00 ∧ b.rep = .pad then
+        (fastNearest .pad b t srcX srcY width height, "scaled-nearest-pad")
+      else if b.filter = .nearest ∧ scale ∧ smallStep ∧ 0 < t.m00 ∧ b.rep = .normal then
+        (fastNearest .normal b t srcX srcY width height, "scaled-nearest-normal")
+      else if b.filter = .nearest ∧ t.m00 = 0 ∧ t.m11 = 0 ∧ t.m01 = -65536 ∧ t.m10 = 65536 ∧ fmt = 0 ∧
+          (let o := rotate90Origin t srcX srcY height
+           decide (0 ≤ o.1 ∧ o.1 + height ≤ b.width ∧ 0 ≤ o.2 ∧ o.2 + width ≤ b.height)) then
+        (some (fastRotate90 b t srcX srcY width height), "rotate-90")
+      else if b.filter = .nearest ∧ t.m00 = 0 ∧ t.m11 = 0 ∧ t.m01 = 65536 ∧ t.m10 = -65536 ∧ fmt = 0 ∧
+          (let o := rotate270Origin t srcX srcY width
+           decide (0 ≤ o.1 ∧ o.1 + height ≤ b.width ∧ 0 ≤ o.2 ∧ o.2 + width ≤ b.height)) then
+        (some (fastRotate270 b t srcX srcY width height), "rotate-270")
+      else if b.filter = .bilinear ∧ scale ∧ smallStep ∧ fmt = 0 ∧ coversAll b p t.m00 t.m11 width height 32768 1 then
+        (fastBilinearCover b t srcX srcY width height, "bilinear-cover-iter")
+      else
+        let rows (f : Int → Option (List Nat)) : Option (List (List Nat)) :=
+          some (scanlineLoop f height srcY (List.replicate width 0))
+        match b.filter with
+        | .nearest => (rows fun line => fetchNearestAffine b t srcX line width, "nearest-affine-iter")
+        | .bilinear => (rows fun line => fetchBilinearAffine b t srcX line width, "bilinear-affine-iter")
+        | .separable => (rows fun line => fetchSeparableAffine b t srcX line width, "separable-affine-iter")
+        | .convolution => (ref, "convolution")
+    | _ => (ref, "bad-matrix")
+
+def request (fast : Bool) : P String := do
   let op ← tok
   match op with
   | "S" => do
@@ -69,19 +121,28 @@ def request : P String := do
                         | 0 => p
                         | 1 => p ||| 0xff000000
                         | _ => (p % 256) <<< 24 }
-    let res := compositeSrc b m sx sy w h
+    let (res, tag) := if fast then compositeFast fmt b m sx sy w h else (compositeSrc b m sx sy w h, "")
     let cell (x y : Nat) : String :=
       if x < dx ∨ x ≥ dx + w ∨ y < dy ∨ y ≥ dy + h then fmtHex prefill else
       match res with
       | none => fmtHex prefill
       | some rows =>
         fmtHex ((rows.getD (y - dy) []).getD (x - dx) 0)
-    pure (" ".intercalate ((List.range dh).flatMap fun y => (List.range dw).map fun x => cell x y))
+    pure (" ".intercalate ((List.range dh).flatMap fun y => (List.range dw).map fun x => cell x y) ++
+          (if fast then " #" ++ tag else ""))
   | _ => failure
 
 def handle (line : String) : String :=
   let toks := (line.trimAscii.toString.splitOn " ").filter (· ≠ "")
-  match request.run toks with
+  match (request false).run toks with
+  | some (s, []) => s
+  | _ => "PARSE-ERROR"
+
+/-- domain `samplefast`: same request lines, evaluated through Model/FetchFast.lean where a guard holds;
+    the reply ends with ` #<path>` -/
+def handleFast (line : String) : String :=
+  let toks := (line.trimAscii.toString.splitOn " ").filter (· ≠ "")
+  match (request true).run toks with
   | some (s, []) => s
   | _ => "PARSE-ERROR"
 
